@@ -92,6 +92,27 @@ func newBackend(r *kernel.Run, kind, name string) nodeenrollment.Storage {
 	return nil
 }
 
+// reopenBackend models a process restart over the durable state: for the file back end a new Storage value over the same
+// directory (whatever the old value kept in memory is gone); the in-memory back ends are their own durable state.
+func reopenBackend(r *kernel.Run, st nodeenrollment.Storage) nodeenrollment.Storage {
+	fs, ok := st.(*file.Storage)
+	if !ok {
+		return st
+	}
+	n, err := file.New(context.Background(), file.WithBaseDirectory(fs.BaseDir()))
+	if err != nil {
+		r.HarnessErr("re-open file storage: %v", err)
+	}
+	r.Count("fault.restart_over_durable_state", 1)
+	return n
+}
+
+// Restart re-opens this side's storage (see reopenBackend).
+func (w *World) Restart() {
+	w.Inner = reopenBackend(w.R, w.Inner)
+	w.St.Inner = w.Inner
+}
+
 // NewWorld builds a side with the given back end; storage wrapper optional; nodeIdLoader wraps simstore's own LoadByNodeId.
 func NewWorld(r *kernel.Run, name, backend string, storageWrapper, nodeIdLoader bool) *World {
 	w := &World{R: r, Backend: backend}
